@@ -873,8 +873,351 @@ func runEvalBytes(c *Ctx, r *Result, rule string) {
 	case !resOK:
 		o.Verdict, o.Reason = Finding, "json.Marshal's argument is not Eval's result"
 	default:
-		// the success return is Marshal's result
-		o.Verdict, o.Reason = Discharged, "json.Unmarshal (error checked) -> Eval on the decoded value (error checked) -> json.Marshal of Eval's result"
+		// every return is either (nil, err) or exactly what json.Marshal returned
+		bad := ""
+		for _, b := range f.Blocks {
+			for _, ins := range b.Instrs {
+				ret, ok := ins.(*ssa.Return)
+				if !ok || len(ret.Results) != 2 {
+					continue
+				}
+				if k, isK := ret.Results[0].(*ssa.Const); isK && k.IsNil() {
+					if e, isE := ret.Results[1].(*ssa.Const); isE && e.IsNil() {
+						bad = "a path returns (nil, nil)"
+					}
+					continue
+				}
+				x0, ok0 := ret.Results[0].(*ssa.Extract)
+				x1, ok1 := ret.Results[1].(*ssa.Extract)
+				if !ok0 || !ok1 || x0.Tuple != ssa.Value(mar) || x1.Tuple != ssa.Value(mar) || x0.Index != 0 || x1.Index != 1 {
+					bad = "a path returns bytes that are not the result of json.Marshal (the output may not be the JSON encoding of Eval's value)"
+				}
+			}
+		}
+		if bad != "" {
+			o.Verdict, o.Reason = Finding, "EvalBytes: "+bad
+		} else {
+			o.Verdict, o.Reason = Discharged, "json.Unmarshal (error checked) -> Eval on the decoded value (error checked) -> json.Marshal of Eval's result; every return is (nil, err) or json.Marshal's own result"
+		}
 	}
 	r.Add(o)
+}
+
+// ---------------------------------------------------------------------------------------
+// IDX — reflect.Value.Index needs an index provably within 0..Len-1 (C09)
+
+// lenLike: v is Len()/len()/NumField() of recv, or a module helper all of whose returns are
+// that or the constant 0 (jlib.arrayLen).
+func lenLike(v ssa.Value, recv ssa.Value, depth int) bool {
+	if depth > 3 {
+		return false
+	}
+	call, ok := v.(*ssa.Call)
+	if !ok {
+		return false
+	}
+	if callee := call.Call.StaticCallee(); callee != nil {
+		if isReflectValue(recvType(callee)) && callee.Name() == "Len" && call.Call.Args[0] == recv {
+			return true
+		}
+		if len(callee.Blocks) > 0 && len(callee.Params) == 1 && len(call.Call.Args) == 1 && call.Call.Args[0] == recv {
+			ok := false
+			for _, b := range callee.Blocks {
+				for _, ins := range b.Instrs {
+					if ret, isRet := ins.(*ssa.Return); isRet {
+						if k, isK := constInt(ret.Results[0]); isK && k == 0 {
+							continue
+						}
+						if lenLike(ret.Results[0], callee.Params[0], depth+1) {
+							ok = true
+							continue
+						}
+						return false
+					}
+				}
+			}
+			return ok
+		}
+	}
+	return false
+}
+
+// lenAtLeast: the use in block b is dominated by a branch edge on which Len(recv) >= n.
+func lenAtLeast(recv ssa.Value, b *ssa.BasicBlock, n int64) bool {
+	for _, hb := range b.Parent().Blocks {
+		if len(hb.Instrs) == 0 {
+			continue
+		}
+		iff, ok := hb.Instrs[len(hb.Instrs)-1].(*ssa.If)
+		if !ok {
+			continue
+		}
+		bo, ok := iff.Cond.(*ssa.BinOp)
+		if !ok {
+			continue
+		}
+		var k int64
+		var op token.Token
+		if lenLike(bo.X, recv, 0) {
+			kk, ok := constInt(bo.Y)
+			if !ok {
+				continue
+			}
+			k, op = kk, bo.Op
+		} else if lenLike(bo.Y, recv, 0) {
+			kk, ok := constInt(bo.X)
+			if !ok {
+				continue
+			}
+			k = kk
+			op = map[token.Token]token.Token{token.LSS: token.GTR, token.LEQ: token.GEQ, token.GTR: token.LSS, token.GEQ: token.LEQ, token.EQL: token.EQL, token.NEQ: token.NEQ}[bo.Op]
+		} else {
+			continue
+		}
+		neg := map[token.Token]token.Token{token.LSS: token.GEQ, token.LEQ: token.GTR, token.GTR: token.LEQ, token.GEQ: token.LSS, token.EQL: token.NEQ, token.NEQ: token.EQL}
+		for s, o := range []token.Token{op, neg[op]} {
+			t := hb.Succs[s]
+			if len(t.Preds) != 1 || !t.Dominates(b) {
+				continue
+			}
+			switch o {
+			case token.GTR:
+				if k+1 >= n {
+					return true
+				}
+			case token.GEQ, token.EQL:
+				if k >= n {
+					return true
+				}
+			case token.NEQ:
+				if k == 0 && n <= 1 {
+					return true
+				}
+			}
+		}
+	}
+	return false
+}
+
+// madeWithLenValue: recv is reflect.MakeSlice(_, n, _) with n the given SSA value.
+func madeWithLenValue(recv, n ssa.Value) bool {
+	call, ok := recv.(*ssa.Call)
+	if !ok {
+		return false
+	}
+	callee := call.Call.StaticCallee()
+	return callee != nil && calleePkgPath(callee) == "reflect" && callee.Name() == "MakeSlice" && call.Call.Args[1] == n
+}
+
+// lenOfSliceSizedBy: bound is len(s) (or the hoisted length of a range loop) of a slice made with
+// length Len(recv).
+func lenOfSliceSizedBy(bound, recv ssa.Value) bool {
+	call, ok := bound.(*ssa.Call)
+	if !ok {
+		return false
+	}
+	b, ok := call.Call.Value.(*ssa.Builtin)
+	if !ok || b.Name() != "len" {
+		return false
+	}
+	ms, ok := call.Call.Args[0].(*ssa.MakeSlice)
+	return ok && lenLike(ms.Len, recv, 0)
+}
+
+var idxExceptions = map[string]string{
+	"jlib.Append": "appendSlice(vs, length) is only called as appendSlice(v1, len1) and appendSlice(v2, len2) with lenN = vN.Len() computed just before",
+	"jlib.Zip":    "i < size, and size is the minimum of arrayLen(vs[j]) over all j, computed by the first loop",
+	"jsonata.evalObject": "the index comes from keyIndexes.items, which groupItemsByKey fills with loop indexes j < items.Len() of the same item array",
+	"jsonata.evalSort":   "the index is sortinfo.index, which buildSortInfo sets to the loop index i < items.Len() of the same item array",
+}
+
+func runIDX(c *Ctx, r *Result, rule string, fns []*ssa.Function, reach *Reach) int {
+	n := 0
+	for _, f := range fns {
+		if f.Synthetic != "" {
+			continue
+		}
+		loops := findLoops(f)
+		ord := 0
+		for _, ins := range instrsIn(f) {
+			call, ok := ins.(*ssa.Call)
+			if !ok {
+				continue
+			}
+			callee := call.Call.StaticCallee()
+			if callee == nil || !isReflectValue(recvType(callee)) || callee.Name() != "Index" {
+				continue
+			}
+			ord++
+			n++
+			recv, idx := call.Call.Args[0], call.Call.Args[1]
+			o := Obligation{Rule: rule, Key: fmt.Sprintf("%s:Index#%d", shortFn(f), ord), Fn: shortFn(f), Pos: c.W.Pos(call.Pos()), Nontrivial: true}
+			why := ""
+			if k, isK := constInt(idx); isK {
+				switch {
+				case k < 0:
+				case madeWithLen(recv, k+1):
+					why = fmt.Sprintf("constant index %d into a slice made with at least %d elements", k, k+1)
+				case lenAtLeast(recv, call.Block(), k+1):
+					why = fmt.Sprintf("constant index %d under a dominating test that the length is at least %d", k, k+1)
+				}
+			} else {
+				for _, l := range loops {
+					if !l.body[call.Block()] {
+						continue
+					}
+					if w := l.indexBoundedBy(idx, recv); w != "" {
+						why = w
+					}
+				}
+				if why == "" {
+					lo := guardedCmp(idx, call.Block(), impliesNonNeg)
+					hi := upperBoundedByLen(idx, recv, call.Block())
+					if lo && hi {
+						why = "dominating tests establish 0 <= index < Len"
+					}
+				}
+			}
+			switch {
+			case why != "":
+				o.Verdict, o.Reason = Discharged, why
+			case idxExceptions[exceptionKey(f)] != "":
+				o.Verdict, o.Reason = Exception, "exception for "+exceptionKey(f)+": "+idxExceptions[exceptionKey(f)]
+			default:
+				o.Verdict, o.Reason = Finding, "reflect.Value.Index with an index that is not provably within 0..Len-1 (it is neither the variable of a loop bounded by the length, nor a constant under a length test, nor guarded on both sides): an out-of-range index panics"
+				if reach != nil {
+					o.Path = reach.Path(f)
+				}
+			}
+			r.Add(o)
+		}
+	}
+	return n
+}
+
+func madeWithLen(v ssa.Value, n int64) bool {
+	call, ok := v.(*ssa.Call)
+	if !ok {
+		return false
+	}
+	if callee := call.Call.StaticCallee(); callee != nil && calleePkgPath(callee) == "reflect" && callee.Name() == "MakeSlice" {
+		if k, ok := constInt(call.Call.Args[1]); ok && k >= n {
+			return true
+		}
+	}
+	return false
+}
+
+// upperBoundedByLen: dominated by an edge on which idx < Len(recv).
+func upperBoundedByLen(idx, recv ssa.Value, b *ssa.BasicBlock) bool {
+	return domGuard(b, func(cond ssa.Value) (int, bool) {
+		bo, ok := cond.(*ssa.BinOp)
+		if !ok {
+			return 0, false
+		}
+		switch {
+		case bo.X == idx && lenLike(bo.Y, recv, 0) && bo.Op == token.LSS:
+			return 0, true
+		case bo.X == idx && lenLike(bo.Y, recv, 0) && bo.Op == token.GEQ:
+			return 1, true
+		case bo.Y == idx && lenLike(bo.X, recv, 0) && bo.Op == token.GTR:
+			return 0, true
+		case bo.Y == idx && lenLike(bo.X, recv, 0) && bo.Op == token.LEQ:
+			return 1, true
+		}
+		return 0, false
+	})
+}
+
+// indexBoundedBy: idx is the counted variable of loop l, running within 0..Len(recv)-1.
+func (l *loopInfo) indexBoundedBy(idx, recv ssa.Value) string {
+	for _, iff := range l.exits() {
+		bo, ok := iff.Cond.(*ssa.BinOp)
+		if !ok || !l.body[iff.Block().Succs[0]] {
+			continue
+		}
+		tb := iff.Block()
+		if !l.everyCycleHits(func(b *ssa.BasicBlock) bool { return b == tb }) {
+			continue
+		}
+		// upward: i < Len(recv) (or i < N with N = Len(recv) computed before the loop)
+		if bo.Op == token.LSS && bo.X == idx {
+			bound := bo.Y
+			if !(lenLike(bound, recv, 0) || madeWithLenValue(recv, bound) || lenOfSliceSizedBy(bound, recv)) {
+				continue
+			}
+			// idx is φ (for loops) or φ+1 (range loops) with φ starting at >= 0 (resp. -1) and stepping by +1.. on every back edge
+			var phi *ssa.Phi
+			startMin := int64(0)
+			if p, ok := idx.(*ssa.Phi); ok && p.Block() == l.header {
+				phi = p
+			} else if b2, ok := idx.(*ssa.BinOp); ok {
+				if p, ok := b2.X.(*ssa.Phi); ok && p.Block() == l.header {
+					if k, isStep := stepOf(idx, p); isStep && k == 1 {
+						phi = p
+						startMin = -1
+					}
+				}
+			}
+			if phi == nil {
+				continue
+			}
+			outside, inside := l.phiEdges(phi)
+			ok := len(inside) > 0
+			for _, e := range inside {
+				if k, isStep := stepOf(e, phi); !isStep || k < 1 {
+					ok = false
+				}
+			}
+			for _, e := range outside {
+				if k, isK := constInt(e); !isK || k < startMin {
+					// a start value chosen between constants >= 0 (phi of constants)
+					if p2, isP := e.(*ssa.Phi); isP {
+						for _, e2 := range p2.Edges {
+							if k2, isK2 := constInt(e2); !isK2 || k2 < startMin {
+								ok = false
+							}
+						}
+						continue
+					}
+					ok = false
+				}
+			}
+			if ok {
+				return "index is the counted variable of a loop that starts at >= 0, steps upwards and runs while index < Len of the same value"
+			}
+		}
+		// downward: for i := Len-1; i >= 0; i--
+		if (bo.Op == token.GEQ || bo.Op == token.GTR) && bo.X == idx {
+			k, isK := constInt(bo.Y)
+			if !isK || (bo.Op == token.GEQ && k < 0) || (bo.Op == token.GTR && k < -1) {
+				continue
+			}
+			phi, ok := idx.(*ssa.Phi)
+			if !ok || phi.Block() != l.header {
+				continue
+			}
+			outside, inside := l.phiEdges(phi)
+			good := len(inside) > 0
+			for _, e := range inside {
+				if st, isStep := stepOf(e, phi); !isStep || st > -1 {
+					good = false
+				}
+			}
+			for _, e := range outside {
+				sub, isSub := e.(*ssa.BinOp)
+				if !isSub || sub.Op != token.SUB || !lenLike(sub.X, recv, 0) {
+					good = false
+					continue
+				}
+				if c1, isK := constInt(sub.Y); !isK || c1 < 1 {
+					good = false
+				}
+			}
+			if good {
+				return "index is the counted variable of a loop that starts at Len-1 of the same value and runs downwards while index >= 0"
+			}
+		}
+	}
+	return ""
 }
